@@ -24,6 +24,11 @@ MISSED = [
  ("C06-c / C10-c / C17-c (module-level caches keyed by id / path / pattern text)", "new objects, new paths, unflagged patterns per call", "buffer-reusing callers (C06), same path rewritten (C10), flagged compiled patterns interleaved with same-text strings (C17)"),
  ("C15-c (stripped sequences realigned by index label)", "peptide tables always had a RangeIndex", "caller tables that keep shuffled index labels"),
  ("C19-c (stray line at multiples of the write batch)", "at most 200 rows", "row counts 999/1000/1001/2000/4096"),
+ ("C02-d (spectrum starts from full keys in hash order)", "different spectra never shared the first two key columns", "`share_scan`: runs of spectra that agree in file, scan and retention time and differ only in ExpMass (C02, C03)"),
+ ("C04-d (target wins exact target/decoy score ties)", "continuous scores; tree probabilities tie only among low-scoring nulls", "`coarse` class: 3/5-level saturating scores straight through `assign_confidence`, 20 alphas up to 0.71, 200 replicates per cell, no learning slack"),
+ ("C09-d (rollup reads earlier `rollup.*` outputs left in the input directory)", "`brew_rollup` had no history workload", "`rollup_history` class: 1..3 earlier rollups (other input sets, src = dest / other / `x/../src`, completed or aborted), byte comparison with a pristine directory"),
+ ("C11-d (`q < fdr` instead of `<=` for the 0-anchor)", "test FDRs 0.01 / 0.05 / 0.2 are not representable in float32, so q never *equals* the threshold", "test FDRs 0.25 and 0.5; `folds_with_q_equal_to_threshold` counted"),
+ ("C12-d (new scoring block size, last row unscored when n % size == 1)", "the constant did not exist when the monitors were written; tables are far smaller than its default", "tunables are discovered in `mokapot.constants` at run time; C05 adds a variant per discovered constant, C12 a metamorphic refit under small values of it"),
 ]
 seed_rows = ["| seeded change | needs | result |", "|---|---|---|"]
 for d in sorted(glob.glob(os.path.join(HERE, "seeded", "*"))):
